@@ -273,12 +273,44 @@ func init() {
 		tab[s] = d
 		return s
 	})
+	registerIntrinsic(rtPkg+"DurationStringOf", func(i *interpreter, fr *frame, fn *ssa.Function, a []value) value {
+		if !isSym(a[0]) {
+			return time.Duration(asInt64(a[0])).String()
+		}
+		tab, _ := i.ext["durations"].(map[string]value)
+		if tab == nil {
+			tab = map[string]value{}
+			i.ext["durations"] = tab
+		}
+		s := fmt.Sprintf("§d%d", len(tab))
+		tab[s] = a[0]
+		return s
+	})
 	registerIntrinsic("(time.Duration).String", func(i *interpreter, fr *frame, fn *ssa.Function, a []value) value {
 		if isSym(a[0]) {
 			return "<symbolic duration>"
 		}
 		return time.Duration(asInt64(a[0])).String()
 	})
+	durFloat := func(name string, den int64) {
+		registerIntrinsic("(time.Duration)."+name, func(i *interpreter, fr *frame, fn *ssa.Function, a []value) value {
+			if s, ok := a[0].(symInt); ok {
+				// contract: |d| small enough (|d/den| < 2^22) that float64(sec)+float64(nsec)/den does not round across an integer
+				return symFloat{t: &Term{S: "(fp.div RNE ((_ to_fp 11 53) RNE (to_real " + s.t.S + ")) " + fpConst(float64(den)).S + ")", Sort: SFP}, num: s.t, den: den}
+			}
+			d := time.Duration(asInt64(a[0]))
+			switch name {
+			case "Seconds":
+				return d.Seconds()
+			case "Minutes":
+				return d.Minutes()
+			}
+			return d.Hours()
+		})
+	}
+	durFloat("Seconds", int64(time.Second))
+	durFloat("Minutes", int64(time.Minute))
+	durFloat("Hours", int64(time.Hour))
 	registerIntrinsic("time.Sleep", nop)
 	registerIntrinsic("time.After", func(i *interpreter, fr *frame, fn *ssa.Function, a []value) value {
 		c := &schan{cap: 1}
